@@ -464,16 +464,20 @@ func (u *Unit) binop(fr *Frame, st *State, op token.Token, a, b Val, rt types.Ty
 	return u.freshVal(rt, "binop", st.pc)
 }
 
-// overflow emits an arithmetic-overflow obligation in functions that ask
-// for checked arithmetic; elsewhere integers are mathematical (listed as
-// an assumption in the evidence).
+// overflow emits an arithmetic-overflow obligation for every signed or narrow integer operation;
+// functions flagged no_arith treat integers as mathematical (listed as an assumption in the evidence).
 func (u *Unit) overflow(st *State, r Term, t types.Type, where string) {
 	if r.Sort != SInt || !isInteger(t) {
 		return
 	}
 	fc := u.eng.cs.Funcs[u.curKey()]
-	if fc == nil || !fc.Flags["arith"] {
+	// checked arithmetic is the default; a function opts out with `flag no_arith` (listed in the evidence)
+	if fc != nil && fc.Flags["no_arith"] {
 		return
+	}
+	tags := []string{"C13"}
+	if fc != nil && len(fc.Tags) > 0 {
+		tags = fc.Tags
 	}
 	b := t.Underlying().(*types.Basic)
 	if b.Kind() == types.Uint64 || b.Kind() == types.Uint || b.Kind() == types.Uintptr {
@@ -483,7 +487,7 @@ func (u *Unit) overflow(st *State, r Term, t types.Type, where string) {
 	}
 	lo, hi := intRange(b)
 	goal := Term{fmt.Sprintf("(and (<= %s %s) (<= %s %s))", lo, r.S, r.S, hi), SBool}
-	u.oblige("arith.no_overflow", fc.Tags, "", st.pc, goal, where, "")
+	u.oblige("arith.no_overflow", tags, "", st.pc, goal, where, "")
 }
 
 func (u *Unit) convert(st *State, v Val, from, to types.Type, where string) Val {
